@@ -100,6 +100,7 @@ type gen struct {
 	callOrd          map[*ssa.Call]int // source-order ordinal of each call among the calls of the same callee
 	callOrdFn        *ssa.Function
 	rootFc           *FuncContract // contract of the function under verification (set on generators of inlined callees)
+	cellParams       map[string]bool
 	retSetsCounted   bool
 	ghostSetArgs     []Val // arguments of the call the ghost assignments being applied are anchored at
 	pointAssertsApplied int
